@@ -291,6 +291,20 @@ func c08Run(inI interface{}, env *Env) *Failure {
 	if len(expFiles)+len(expDirs) > 0 && res.Decisions > 0 {
 		env.Count("nontrivial")
 	}
+	// configurations that force the rare paths (counted so that a mix that never reaches them shows)
+	if len(expFiles) > in.ChanSize || len(expDirs) > in.ChanSize {
+		env.Count("probe.more-selected-nodes-than-queue-capacity")
+	}
+	effProd := in.Producents
+	if effProd == 0 || effProd > in.MaxJob {
+		effProd = in.MaxJob
+	}
+	if effProd == 1 && len(in.Dirs) > 0 {
+		env.Count("probe.producer-pool-exhausted:in-line-recursion")
+	}
+	if len(in.Dirs)+len(in.Files) == 0 {
+		env.Count("probe.empty-tree")
+	}
 	if f := env.SimFailure("C08", res); f != nil {
 		return f
 	}
